@@ -13,7 +13,6 @@ The ODE half of C14 is a pure function of its input and is not decided by this
 technique (see DESIGN.md).
 """
 import hashlib
-import inspect
 import random
 
 import eonsim
@@ -61,28 +60,7 @@ def run_ode_pair(case, rng):
     for G, L, c in ((G1, L1, case), (G2, L2, c2)):
         kw = c19.ode_graph_kwargs(nm, None, L, c)
         kw.pop("return_full_data", None)
-        ex = case.get("ode_explicit") or {}
-        params = inspect.signature(getattr(c19.AN, nm)).parameters
-        if ex.get("weights"):
-            # heterogeneous per-edge / per-node rates: they must travel with the nodes
-            if "transmission_weight" in params:
-                kw["transmission_weight"] = "w"
-            if "recovery_weight" in params:
-                kw["recovery_weight"] = "nw"
-        if ex.get("nodelist") and "nodelist" in params:
-            # an explicit nodelist in an order of its own (another one on each side), and, where the
-            # entry point takes per-node initial probabilities, Y0 / X0 arrays listed in that order
-            order = list(range(len(L)))
-            rng.shuffle(order)
-            kw["nodelist"] = [L[i] for i in order]
-            if ex.get("y0") and "Y0" in params:
-                kw.pop("rho", None)
-                I0s, R0s = set(c["I0"]), set(c["R0"])
-                y = np.array([0.9 if i in I0s else 0.05 for i in order])
-                kw["Y0"] = y
-                if "X0" in params:
-                    kw["X0"] = np.array([1.0 - y[k] - (0.6 if i in R0s else 0.0) if i not in I0s else 0.1
-                                         for k, i in enumerate(order)])
+        c19.ode_explicit_kwargs(nm, L, c, rng, kw)
         try:
             with np.errstate(all="ignore"), warnings.catch_warnings(record=True) as wl:
                 warnings.simplefilter("always")
